@@ -307,6 +307,25 @@ VALUES = [
     ("127.0.0.1", 443, 1 << 62, 2000, 10000, 30000),     # probe of the span queue size: panics before allocating
 ]
 
+# text fields of a well-formed App message given hostile bytes (the numbers are ordinary): the daemon treats them as opaque
+# text, truncates some of them (display_host: 255 bytes, on a rune boundary) and must survive every content -- seeded/C10g1
+HOSTILE_TEXT = [b"\x80" * 300, b"\xbf" * 256 + b"tail", b"a" * 254 + "\u00e9".encode(), b"a" * 253 + "\U0001F600".encode() + b"zz",
+                b"a" * 255 + b"\x80" * 3, b"\xff" * 1000, b"\x00" * 300, b"h" * 70000, b"\xe2\x82" * 200, b"\xf0\x9f\x98" * 100,
+                "\u00e9".encode() * 128, b"a" * 255, b"a" * 256]
+TEXT_FIELDS = ["display_host", "host", "appname", "docker_id", "version"]
+
+
+def text_values():
+    out = []
+    for f in TEXT_FIELDS:
+        for t in HOSTILE_TEXT:
+            if f == "appname" and (not t or b";" in t):
+                continue
+            out.append(["", 0, 0, 2000, 10000, 30000, {f: t.hex()}])
+    # several fields at once
+    out.append(["", 0, 0, 2000, 10000, 30000, {f: HOSTILE_TEXT[0].hex() for f in TEXT_FIELDS}])
+    return out
+
 
 def run(chk, replay=None):
     import schema
@@ -343,12 +362,12 @@ def run(chk, replay=None):
     else:
         muts = gen_mutants(rng, bases, S, chk.tier)
         rng.shuffle(muts)
-        values = [list(v) for v in VALUES]
+        values = [list(v) for v in VALUES] + text_values()
     bsz = 48
     batches = [muts[i:i + bsz] for i in range(0, len(muts), bsz)]
     payload = {"mode": "run", "batches": [[m["hex"] for m in b] for b in batches], "parallel": 8,
                "values": [{"to_host": v[0], "to_port": v[1], "queue": str(v[2]), "span": str(v[3]), "log": str(v[4]),
-                           "custom": str(v[5])} for v in values]}
+                           "custom": str(v[5]), "strs": (v[6] if len(v) > 6 else {})} for v in values]}
     res, err = harness(payload)
     if res is None:
         # the test binary died: a panic escaped every recover of the daemon code AND of the harness.  Find the
@@ -517,7 +536,8 @@ Print corr_bad. Print prop_bad. Print setup_ok.
                                               "connects: " + vo["proc"],
                                       "app_message": {"trace_observer_host": v[0], "trace_observer_port": v[1], "span_queue_size": v[2],
                                                       "span_events_max_samples_stored": v[3], "log_events_max_samples_stored": v[4],
-                                                      "custom_events_max_samples_stored": v[5]},
+                                                      "custom_events_max_samples_stored": v[5],
+                                                      "text_fields_hex": (v[6] if len(v) > 6 else {})},
                                       "values": [v], "observed": vo}, sig=sig)
     for bi, s in setup_fail[:3]:
         chk.fail("setup_%d.txt" % bi, "batch %d: the harness could not bring up a processor with two connected applications: %s" % (bi, s),
